@@ -90,7 +90,7 @@ def plan(tier, seed):
                       'multi-chain files; selections: every non-empty proper subset of the chain ids (inputs with > 4 chains: '
                       'singletons and their complements), each given in both flag orders for 2-subsets; for corpus inputs every selection is '
                       'also run together with -i (first residue of a selected chain / of a deleted chain / both), -d and -k on both '
-                      'sides; unparsable records in an unselected chain; segment-identifier text next to blank chain ids; propka.run.main on three files with one selection. non-trivial = distinct '
+                      'sides; unparsable records in an unselected chain; segment-identifier text next to blank chain ids; residue names that fill column 21; propka.run.main on three files with one selection. non-trivial = distinct '
                       '(input, selection) whose selected part contains at least one group'),
                 bounds=dict(inputs=len(ins)), samples=[ins[0], ins[-1]])
 
@@ -202,6 +202,10 @@ def run_case(case, ctx, acc):
         for sel in selections(chains)[:6]:
             jobs.append((sel, (), 'segid-PROA'))
             jobs.append((sel, (), 'segid-of-other-chain'))
+    # residue names that fill column 21 as well (four-character names of simulation packages: TIP3, POPC, MTX1): the column
+    # next to the chain id is not part of it
+    for sel in selections(chains)[:4]:
+        jobs.append((sel, (), 'resname-4-characters'))
     for sel, co, special in jobs:
         opts = list(co)
         for c in sel:
@@ -223,6 +227,9 @@ def run_case(case, ctx, acc):
                 items_c.append(it)
             text_c = gen.to_text(items_c)
         deleted = gen.to_text([i for i in items_c if isinstance(i, str) or i.chain in sel])
+        if special == 'resname-4-characters':
+            fill = lambda t: ''.join((ln[:20] + '1' + ln[21:]) if ln[:6] in ('ATOM  ', 'HETATM') and len(ln) > 21 else ln for ln in t.splitlines(True))    # noqa: E731
+            text_c, deleted = fill(text_c), fill(deleted)
         sub = dict(case, sel=sel, co=list(co), special=special)
         try:
             m1 = pk.run(text_c, opts, write=True)
